@@ -9,4 +9,4 @@ Definition current : variant :=
      d7_wakeup_fixed := true; d6_close_clears := true; d12_accept_visible_ep := true;
      d13_acceptor_close := true; d14_nat_syn_only := true; d18_accept_mss := true;
      d26_writer_wakeup := true; d11a_drop_guard := true; d27_synack_guard := true;
-     d8_drop_unaccounts := true; d9_drop_cb_kept := true; d25_resolver_order := true; d11b_drop_via_fwd := true; d28_proxy_one_lookup := true; d29_proxy_v6_authority := true; d30_socks_parse := true; d31_http_stall_reads := true; d32_socks_udp_header := true; d24_close_resets_backlog := true; d23_single_bind := true; d5_resolver_dtor := true; d3_udp_wait_write := true |}.
+     d8_drop_unaccounts := true; d9_drop_cb_kept := true; d25_resolver_order := true; d11b_drop_via_fwd := true; d28_proxy_one_lookup := true; d29_proxy_v6_authority := true; d30_socks_parse := true; d31_http_stall_reads := true; d32_socks_udp_header := true; d24_close_resets_backlog := true; d23_single_bind := true; d5_resolver_dtor := true; d3_udp_wait_write := true; d33_writer_level := true |}.
